@@ -42,6 +42,12 @@ Two input families get clause ids of their own (prefix), so that a finding there
   again_<clause>          `reseat_call_change_call_again`: the clauses above for a call on list / map OBJECTS that every entry point has
                           been called on before and that were then changed in place (see `history` below)
 
+  `reseat_offset_maps_signatures_and_own_grids` (TimingMap.reseat() of maps made from ms offsets; see `_run_offset_map_case`):
+  sig_mid_measure_tm_<clause>  the beats per measure change at a change that sits in the MIDDLE of a measure of the signature before it
+                          (4/4 -> 3/4 at beat 3.5 ...): which beat of which measure the change is, is not stated, so only no_exception,
+                          original_time_is_tempo_point, at_most_one_extra_per_interval (in ms) and on_measure_line (of the result) are compared
+  own_grid_tm_<clause>    the map carries a snapper of its own (coarser / finer than the default), every change on that grid: all tm_ clauses
+
 Input dimensions of a case (all optional in the JSON `case`, defaults = the original enumeration):
   history          dict(edit=bpm|append|none|other_list, ...): `changes` is the list AS IT IS at the checked call; it was built as it
                    was before the change (bpm: change k had old_bpm; append: without its last change), every entry point of `forms` was
@@ -888,6 +894,197 @@ def reseat_call_change_call_again(rep):
             yield ch, rng.choice(INITS), None, order, dict(history=hist)
 
     _drive(rep, gen(), 20, 200)
+
+
+# ----------------------------------------------------------------------------- dimensions added after round 5
+
+SIG_METROS = [1, 2, 3, 4, 5, 6, 7, 8, 9, 12]
+# listed divisions of a map's OWN snapper (TimingMap.snapper, default Snapper()) and the beat grid its changes are put on: every
+# position used is a multiple of 1/den with den one of the listed divisions, i.e. allowed under any reading of `divisions`
+OWN_GRIDS = [
+    ([1, 2, 3, 4], [2, 3, 4]),
+    ([4, 3, 2, 1], [4, 3]),
+    ([1, 2, 4, 8, 16], [2, 8, 16]),
+    ([12], [12]),
+    ([24], [24]),
+    ([48], [48]),
+    ([128], [128]),
+    ([192], [192]),
+    ([64, 192], [64, 192]),
+    ([144], [144]),
+    (list(range(1, 129)), [128, 100, 125, 7]),
+]
+
+
+def _run_offset_map_case(case):
+    """TimingMap.reseat() of a map made from the MILLISECOND positions of the changes (offset -> snap route).
+
+    case: changes=[[position in beats from the first change, bpm]], metros=[beats per measure of every change], init, order?,
+    map_divisions? (the map's own snapper), map_snapper_via? (ctor | field).  The ms position of a change is fixed by the bpms and the
+    beat distances alone (t_{i+1} = t_i + (p_{i+1}-p_i) * 60000 / b_i), whatever the beats per measure are.
+
+    `sig_mid_measure` (a change of beats per measure at a change that does not sit on a measure line of the signature in force before
+    it): which beat of which measure such a change is, is not stated; only clauses that do not need it are compared, under ids of their own
+    (sig_mid_measure_<clause>):
+      no_exception, original_time_is_tempo_point, at_most_one_extra_per_interval (counted in ms between the original times),
+      on_measure_line (of the RESULT: every returned stretch is a whole number >= 1 of the returned point's own measures).
+    Otherwise (signature changes only on measure lines / none, own snapper coarser or finer than the default with every change on the
+    map's own grid) all tm_ clauses of `_run_case` apply; they carry the prefix own_grid_ when the map has a snapper of its own.
+    """
+    from reamber.algorithms.timing.TimingMap import TimingMap
+    from reamber.algorithms.timing.utils.BpmChangeOffset import BpmChangeOffset
+    from reamber.algorithms.timing.utils.Snapper import Snapper
+
+    prev = logging.root.manager.disable
+    logging.disable(logging.WARNING)
+    try:
+        changes = [(Fraction(p), Fraction(b)) for p, b in case["changes"]]
+        metros = [int(m) for m in case["metros"]]
+        n = len(changes)
+        init = case.get("init", 0.0)
+        t = _orig_times(changes)
+        mid = _sig_change_mid_measure(changes, metros)
+        prefix = "sig_mid_measure_" if mid else ("own_grid_" if case.get("map_divisions") else "")
+        fam = "" if mid else _family(changes, metros)
+        failed = []
+        bco_in = [BpmChangeOffset(float(b), me, float(_F(init) + ti)) for (_, b), me, ti in zip(changes, metros, t)]
+        ctor = bool(case.get("map_divisions")) and case.get("map_snapper_via") != "field"
+        if case.get("order") and not ctor:
+            # (the dataclass constructor is handed the list in time order: only the factory is documented to sort)
+            bco_in = [bco_in[i] for i in case["order"]]
+        try:
+            if case.get("map_divisions"):
+                sn = Snapper(divisions=list(case["map_divisions"]))
+                if case.get("map_snapper_via") == "field":
+                    tm0 = TimingMap.from_bpm_changes_offset(bco_in)
+                    tm0.snapper = sn
+                else:
+                    tm0 = TimingMap(bpm_changes_offset=bco_in, snapper=sn)
+            else:
+                tm0 = TimingMap.from_bpm_changes_offset(bco_in)
+            tm1 = tm0.reseat()
+            bco = sorted(tm1.bpm_changes_offset, key=lambda b: b.offset)
+        except Exception as ex:  # noqa
+            return [(prefix + fam + "no_exception", f"TimingMap.reseat() of a map made from offsets raised {type(ex).__name__}: {ex}")]
+        T = [_F(b.offset) - _F(init) for b in bco]
+        bpms = [b.bpm for b in bco]
+        coincident = any(_close(a, b) for a, b in zip(t[:-1], t[1:]))
+        for j in range(len(bco) - 1):
+            ml = _F(bco[j].metronome) * 60000 / _F(bco[j].bpm)
+            k = (T[j + 1] - T[j]) / ml
+            if coincident and abs(k) * ml <= TOL_MS:
+                continue
+            if abs(k - round(k)) * ml > TOL_MS or round(k) < 1:
+                failed.append(("tm_on_measure_line", f"point {j + 1} at {float(T[j + 1])} ms is {float(k)} measures ({bco[j].metronome} beats at {bco[j].bpm} bpm) after point {j}"))
+                break
+        if mid:
+            for i in range(n):
+                if not any(_close(x, t[i]) for x in T):
+                    failed.append(("tm_original_time_is_tempo_point", f"change {i} at {float(t[i])} ms is not among returned times {[float(x) for x in T]}"))
+                    break
+            for i in range(n - 1):
+                inside = [x for x in T if t[i] + TOL_MS < x < t[i + 1] - TOL_MS]
+                if len(inside) > 1:
+                    failed.append(("tm_at_most_one_extra_per_interval", f"{len(inside)} points strictly between change {i} and {i + 1}: {[float(x) for x in inside]}"))
+                    break
+            outside = [x for x in T if x < t[0] - TOL_MS or x > t[-1] + TOL_MS]
+            if outside:
+                failed.append(("tm_at_most_one_extra_per_interval", f"points outside the original span: {[float(x) for x in outside]}"))
+        else:
+            _check_points("tm_", changes, t, T, bpms, failed, metros)
+        seen, uniq = set(), []
+        for w, d in failed:
+            w = prefix + fam + w
+            if w not in seen:
+                seen.add(w)
+                uniq.append((w, d))
+        return uniq
+    finally:
+        logging.disable(prev)
+
+
+def _sig_change_mid_measure(changes, metros):
+    """some change switches the beats per measure while NOT sitting on a measure line of the signature in force before it (measure
+    lines counted from the last change that sat on one; after a mid-measure switch nothing further is claimed: True)"""
+    beat = Fraction(0)
+    for i in range(1, len(changes)):
+        beat = (beat + (changes[i][0] - changes[i - 1][0])) % metros[i - 1]
+        if metros[i] != metros[i - 1] and beat != 0:
+            return True
+    return False
+
+
+@bounded("C11", note="TimingMap.reseat() of maps made from ms offsets: beats per measure changing at a change in the middle of a measure (also to fewer beats than the beat index it sits on), other metronomes, and maps with a snapper of their own (coarser / finer than the default) whose changes lie on that snapper's grid only")
+def reseat_offset_maps_signatures_and_own_grids(rep):
+    rng = rep.rng
+    N = rep.n(1500, 24000)
+    rep.bound = (
+        f"all maps [120 bpm m0/4 @ start, 150 bpm m1/4 @ k half-beats, 100 bpm m1/4 3 measures later], (m0, m1) in [(4,3),(4,2),(5,3),(5,4),(3,4),(4,5),(6,4),(8,3),(7,2),(2,1)], k = 1..6*m0, start in {{0, -730}} ms + "
+        f"{N} seeded maps of 2..4 changes given in ms: 50 % beats per measure drawn per change from {SIG_METROS} (gaps up to 8 beats on the half-, quarter- and 1/48-beat grids; 3 in 10 gaps whole measures of the signature before), "
+        f"15 % one signature other than 4/4, 35 % a snapper of the map's own from {[g if len(g) < 10 else '1..' + str(max(g)) for g, _ in OWN_GRIDS]} (constructor argument or field assigned) with every change on a position only that grid's listed divisions allow "
+        f"(1/3, 1/12, 1/24, 1/128, 1/144, 1/192, 1/125 ... beat); bpm from the pool, initial offsets {INITS}, list handed over shuffled (half); clauses sig_mid_measure_* where the signature changes in mid-measure, the full tm_ set otherwise"
+    )
+    rep.rule = "a case is one tempo list in ms with its beats per measure (+ the map's own snapper); non-trivial when some change is off a measure line"
+
+    def one(case):
+        ch = [(Fraction(p), Fraction(b)) for p, b in case["changes"]]
+        me = case["metros"]
+        beat, off = Fraction(0), False
+        for i in range(1, len(ch)):
+            beat = (beat + ch[i][0] - ch[i - 1][0]) % me[i - 1]
+            off = off or beat != 0
+        rep.case(case, nontrivial=off)
+        kind = "sig_mid_measure" if _sig_change_mid_measure(ch, me) else ("own_grid" if case.get("map_divisions") else "signatures_on_measure_lines")
+        cnt = rep.extra.setdefault("classes", {})
+        cnt[kind] = cnt.get(kind, 0) + 1
+        for what, d in _run_offset_map_case(case):
+            rep.fail(what, case, d)
+
+    for start in (0.0, -730.0):
+        for m0, m1 in ((4, 3), (4, 2), (5, 3), (5, 4), (3, 4), (4, 5), (6, 4), (8, 3), (7, 2), (2, 1)):
+            for k in range(1, 6 * m0 + 1):
+                if rep.out_of_time(30, 300):
+                    return
+                p1 = Fraction(k, 2)
+                one(dict(changes=[["0", "120"], [str(p1), "150"], [str(p1 + 3 * m1), "100"]], metros=[m0, m1, m1], init=start))
+    for _ in range(N):
+        if rep.out_of_time(30, 300):
+            break
+        n = rng.randrange(2, 5)
+        r = rng.random()
+        more = {}
+        if r < 0.65:
+            den = rng.choice([2, 2, 4, 48])
+            if r < 0.5:
+                metros = [rng.choice(SIG_METROS) for _ in range(n)]
+            else:
+                metros = [rng.choice([m for m in SIG_METROS if m != 4])] * n
+            dens = [den]
+        else:
+            divs, dens = rng.choice(OWN_GRIDS)
+            metros = [rng.choice([4, 4, 3, 8])] * n
+            more = dict(map_divisions=list(divs), map_snapper_via=rng.choice(["ctor", "field"]))
+        pos = [Fraction(0)]
+        for i in range(n - 1):
+            if rng.random() < 0.3:
+                g = Fraction(rng.randrange(1, 4) * metros[i])
+            else:
+                d = rng.choice(dens)
+                g = Fraction(rng.randrange(1, 8 * d + 1), d)
+            pos.append(pos[-1] + g)
+        ch = list(zip(pos, [Fraction(rng.choice(POOL)) for _ in range(n)]))
+        if not _sig_change_mid_measure(ch, metros) and _family(ch, metros) not in ("", "other_metronome_"):
+            continue
+        case = dict(changes=[[str(p), str(b)] for p, b in ch], metros=metros, init=rng.choice(INITS), **more)
+        if rng.random() < 0.5:
+            case["order"] = _shuffled(rng, n)
+        one(case)
+
+
+@replayer("reseat_offset_maps_signatures_and_own_grids")
+def _replay_offset_map(case, what):
+    hit = [d for w, d in _run_offset_map_case(case) if w == what]
+    return (bool(hit), hit[0] if hit else "passes")
 
 
 def _replay(case, what):
